@@ -10,6 +10,8 @@ import pulsarbat as pb
 
 from .. import exact, gen, probes, monitors, dsp, refdft
 
+from ..replay import wl_R
+
 RULE = ("N in {1,2,3,5,16,17,101,256,1009,4096,(thorough: up to 65536)} x dtype {f4,f8,c8,c16} x sample shapes (),(3,),(4,2),(2,1,3) x "
         "shift kind {integer, fractional, time Quantity, |s|>=N, mixed signs, zeros among non-zeros} x shift-array shape {scalar, full, "
         "lower rank, length-1 axes in every position} x NumPy/Dask (chunked off time). Every time_shift call (also the one inside "
@@ -311,9 +313,14 @@ def wl_shift(ctx, idx, rng):
         ctx.call("time_shift", pb.time_shift, sig, bad, expect=ValueError, where="time_shift(too many dims)")
 
 
+def install_universal(ctx):
+    TimeShiftMonitor(ctx).install()
+    return probes.detach_all
+
+
 def workloads(ctx):
     q = ctx.tier == "quick"
-    return [("shift", 4480 if q else 42000, wl_shift)]
+    return [("R", 1, wl_R), ("shift", 4480 if q else 42000, wl_shift)]
 
 
 def setup(ctx):
